@@ -30,56 +30,15 @@ LISTS = {"star": ("*",), "ips": ("10.0.0.1", "10.0.0.2"), "empty": (), "star+ips
 
 
 def r1(ctx):
+    """scheme and forwarder headers only from trusted peers: Message.parse_headers evaluated for peers x allow lists x
+    trailer flag x header blocks (gunicorn.rules.c01.headers_table, part 'trust'), against the documented behaviour:
+    untrusted peers and trailers can set neither; the first scheme header decides, a contradicting one is refused"""
+    from .c01 import headers_table
     repo = ctx.repo
     f = ctx.fn(repo.func(MSG + ".Message.parse_headers"))
-    g = f.cfg
-    # the gated locals: assigned from cfg.secure_scheme_headers / cfg.forwarder_headers
-    gated = {}
-    for s in g.stmts(ast.Assign):
-        a = cfg_attr(s.ast.value)
-        if a in ("secure_scheme_headers", "forwarder_headers") and isinstance(s.ast.targets[0], ast.Name):
-            gated[a] = s.ast.targets[0].id
-    ctx.need(len(gated) == 2, "C08.R1: gated copies of cfg.secure_scheme_headers / cfg.forwarder_headers not found in parse_headers")
-    loop = None
-    for w in walk_own(f.node):
-        if isinstance(w, ast.While) and any(isinstance(c, ast.Call) and isinstance(c.func, ast.Attribute) and c.func.attr == "append" for c in ast.walk(w)):
-            loop = loop or w
-    ctx.need(loop is not None, "C08.R1: header loop not found")
-    head = [n for n in g.nodes_of(loop) if n.kind == "join"][0]
-    ex0 = Explorer(f)
-    k_allow = None
-    for n in walk_own(f.node):
-        if cfg_attr(n) == "forwarded_allow_ips":
-            k_allow = ex0.key_of(n)
-    if not k_allow:
-        ctx.bad("C08.R1", key(f, "gate-absent"), site(f), "cfg.forwarded_allow_ips is not consulted in parse_headers: every peer can assert scheme / forwarder headers")
-        return
-    k_ssh = [ex0.key_of(n) for n in walk_own(f.node) if cfg_attr(n) == "secure_scheme_headers"][0]
-    k_fwd = [ex0.key_of(n) for n in walk_own(f.node) if cfg_attr(n) == "forwarder_headers"][0]
-    TR = "from_trailer"
-    ctx.need(TR in f.params, "C08.R1: parse_headers has no from_trailer parameter")
-    rows = []
-    for ln, lst in LISTS.items():
-        for pn, peer in PEERS.items():
-            for tr in (False, True):
-                ex = Explorer(f)
-                outs = ex.run(g.entry, {k_allow: lst, "self.peer_addr": peer, TR: tr, k_ssh: "SSH", k_fwd: "FWD"}, stop=lambda n: n is head)
-                got = set()
-                for o in outs:
-                    if o.kind != "stop":
-                        continue
-                    a, b = o.env.get(gated["secure_scheme_headers"], UNKNOWN), o.env.get(gated["forwarder_headers"], UNKNOWN)
-                    got.add("trusted" if (a == "SSH" and b == "FWD") else ("untrusted" if (a in ({}, ()) and b in ((), {})) else "mixed:%r/%r" % (a, b)))
-                star = "*" in lst
-                tup = isinstance(peer, tuple)
-                listed = tup and peer[0] in lst
-                want = "trusted" if (not tr and (star or not tup or listed)) else "untrusted"
-                rows.append({"forwarded_allow_ips": list(lst), "peer": pn, "from_trailer": tr, "outcome": sorted(got), "required": want})
-                ctx.check("C08.R1", got == {want}, key(f, "gate|%s|%s|trailer=%s" % (ln, pn, tr)), site(f, text="forwarded_allow_ips=%s peer=%s from_trailer=%s" % (list(lst), pn, tr)),
-                          "trust gate gives %s, required %s: %s" % (sorted(got), want, "an unlisted peer can set scheme/forwarder headers" if want == "untrusted" else "a listed peer is not trusted"),
-                          want)
-    ctx.table("C08.R1 trust gate", rows)
-    # who may read the two settings in gunicorn/http
+    headers_table(ctx, "C08.R1", "trust")
+    # the two gated settings are consulted nowhere else in the request path (wsgi.create etc. see only what
+    # parse_headers let through)
     reads = []
     for mn in (MSG, WSGI, "gunicorn.http.body", "gunicorn.http.parser"):
         for ff in repo.module(mn).all_funcs:
@@ -87,37 +46,8 @@ def r1(ctx):
                 if cfg_attr(n) in ("secure_scheme_headers", "forwarder_headers"):
                     reads.append((ff, n))
     for ff, n in reads:
-        par = ff.module.parents.get(n)
-        okk = ff is f and isinstance(par, ast.Assign) and isinstance(par.targets[0], ast.Name) and par.targets[0].id in gated.values()
-        ctx.check("C08.R1", okk, key(ff, "ungated-read|" + norm(n)), site(ff, n), "`%s` is read outside the forwarded_allow_ips gate" % norm(n), "read only into the gated local")
+        ctx.check("C08.R1", ff is f, key(ff, "ungated-read|" + norm(n)), site(ff, n), "`%s` is read outside Message.parse_headers (whose use of it is evaluated against the trust gate)" % norm(n), "read only in parse_headers")
     ctx.floor("C08.R1", "reads of gated settings", len(reads), 2)
-    # scheme stores
-    SSH = gated["secure_scheme_headers"]
-    stores = [s for s in g.stmts(ast.Assign) if any(isinstance(t, ast.Attribute) and t.attr == "scheme" for t in s.ast.targets)]
-    ctx.need(stores, "C08.R1: parse_headers never sets self.scheme")
-
-    def in_ssh(e):
-        c = compare(e)
-        if c and c[1] in (ast.In, ast.NotIn) and isinstance(c[2], ast.Name) and c[2].id == SSH:
-            return -1 if c[1] is ast.In else +1
-        return None
-    for s in stores:
-        p, hits = guard_check(f, [s], in_ssh, kills=[k for k in stores_to_name(f, SSH) if cfg_attr(getattr(k.ast, "value", None)) == "secure_scheme_headers"])
-        # kills: the gated assignment itself is the only non-empty source; the guard must come after it -> checked by table above
-        p, hits = guard_check(f, [s], in_ssh)
-        ctx.check("C08.R1", p is None, key(f, "scheme-store"), site(f, s), "self.scheme is changed without the header name being in the gated secure_scheme_headers", "only for gated scheme headers",
-                  path=p and g.fmt_path(p))
-    confl = [n for n in g.stmts(ast.Raise) if n.raised and n.raised.endswith("InvalidSchemeHeaders")]
-    ctx.check("C08.R1", bool(confl), key(f, "conflict-raises"), site(f), "contradictory scheme headers are not rejected", "InvalidSchemeHeaders raised")
-    # a second scheme header must go through the comparison: store guarded by `scheme_header` false
-    flags = [t.ast.id for t in g.tests() if isinstance(t.ast, ast.Name) and any(isinstance(x.ast, ast.Assign) and const(x.ast.value, NO) is True for x in stores_to_name(f, t.ast.id))]
-    if flags:
-        def seen(e):
-            return +1 if isinstance(e, ast.Name) and e.id in flags else None
-        for s in stores:
-            p, hits = guard_check(f, [s], seen)
-            ctx.check("C08.R1", p is None, key(f, "first-scheme-header-wins"), site(f, s), "a later scheme header silently overrides an earlier one", "later headers are compared, not stored",
-                      path=p and g.fmt_path(p))
     # other writers of .scheme in the package
     for ff in repo.funcs():
         if ff is f:
@@ -129,52 +59,19 @@ def r1(ctx):
 
 
 def r2(ctx):
+    """underscore policy (a name with '_' is kept only as a forwarder header of a trusted peer or under
+    header_map=dangerous, dropped under drop, refused under refuse): evaluated (headers_table, part 'switches')"""
+    from .c01 import headers_table
     repo = ctx.repo
-    f = ctx.fn(repo.func(MSG + ".Message.parse_headers"))
-    g = f.cfg
-    tests = [t for t in g.tests() if (lambda c: c and c[1] is ast.In and const(c[0], NO) == "_")(compare(t.ast))]
-    ctx.need(len(tests) == 1 and isinstance(compare(tests[0].ast)[2], ast.Name), "C08.R2: the `\"_\" in name` policy test was not found")
-    t = tests[0]
-    NAME = compare(t.ast)[2].id
-    fwd = None
-    for s in g.stmts(ast.Assign):
-        if cfg_attr(s.ast.value) == "forwarder_headers":
-            fwd = s.ast.targets[0].id
-    ctx.need(fwd, "C08.R2: gated forwarder_headers local not found")
-    loop = f.module.enclosing(t.ast, ast.While)
-    head = [n for n in g.nodes_of(loop) if n.kind == "join"][0]
-    ret = [n.ast.value.id for n in g.stmts(ast.Return) if isinstance(n.ast.value, ast.Name)][0]
-    app = [n for c in method_calls(f, "append") if isinstance(c.func.value, ast.Name) and c.func.value.id == ret for n in nodes_with(f, c)]
-    ex0 = Explorer(f)
-    hm = [ex0.key_of(n) for n in walk_own(f.node) if cfg_attr(n) == "header_map"]
-    ctx.need(hm, "C08.R2: cfg.header_map is not consulted")
-    rows = []
-    for nm in ("X_FORWARDED_FOR", "X-FORWARDED-FOR", "SCRIPT_NAME"):
-        for fl, fv in (("none", ()), ("named", ("SCRIPT_NAME", "X_FORWARDED_FOR")), ("star", ("*",)), ("other", ("REMOTE_USER",))):
-            for mode in ("drop", "refuse", "dangerous", "bogus"):
-                ex = Explorer(f)
-                outs = ex.run(t, {NAME: nm, fwd: fv, hm[0]: mode}, stop=lambda n: n is head, watch={n.id: "append" for n in app})
-                got = set()
-                for o in outs:
-                    if o.kind == "raise":
-                        got.add("reject")
-                    elif o.kind == "stop":
-                        got.add("append" if "append" in o.events else "skip")
-                    else:
-                        got.add(o.kind)
-                u = "_" in nm
-                isfw = nm in fv or "*" in fv
-                want = "append" if (not u or isfw or mode == "dangerous") else ("skip" if mode == "drop" else "reject")
-                rows.append({"name": nm, "forwarder_headers": list(fv), "header_map": mode, "outcome": sorted(got), "required": want})
-                ctx.check("C08.R2", got == {want}, key(f, "underscore|%s|%s|%s" % (nm, fl, mode)), site(f, text="name=%s forwarder_headers=%s header_map=%s" % (nm, fl, mode)),
-                          "underscore policy gives %s, required %s (an underscore name maps to the same environ key as its hyphen twin)" % (sorted(got), want), want)
-    ctx.table("C08.R2 underscore policy", rows)
+    headers_table(ctx, "C08.R2", "switches")
     # environ key map
     fc = ctx.fn(repo.func(WSGI + ".create"))
     keys = [s for s in fc.cfg.stmts(ast.Assign) if isinstance(s.ast.value, ast.BinOp) and isinstance(s.ast.value.op, ast.Add) and const(s.ast.value.left, NO) == "HTTP_"]
+    keys += [s for s in fc.cfg.stmts(ast.Assign) if isinstance(s.ast.value, ast.JoinedStr) and s.ast.value.values and const(s.ast.value.values[0], NO) == "HTTP_"]
     ctx.need(keys, "C08.R2: 'HTTP_' + name key construction not found in wsgi.create")
     for s in keys:
-        r = s.ast.value.right
+        v = s.ast.value
+        r = v.right if isinstance(v, ast.BinOp) else (v.values[1].value if len(v.values) == 2 and isinstance(v.values[1], ast.FormattedValue) else None)
         okk = isinstance(r, ast.Call) and isinstance(r.func, ast.Attribute) and r.func.attr == "replace" and [const(a, NO) for a in r.args] == ["-", "_"] and isinstance(r.func.value, ast.Name)
         ctx.check("C08.R2", okk, key(fc, "key-map"), site(fc, s), "the environ key is not 'HTTP_' + name.replace('-', '_') (the only non-injective step the underscore policy accounts for)", "HTTP_ + replace('-', '_')")
     # default of header_map is a safe mode
